@@ -188,6 +188,7 @@ func main() {
 
 var generators = map[string]func() string{
 	"Consts.v": genConsts,
+	"PersistGen.v": genPersist,
 }
 
 var _ = ast.Inspect
